@@ -110,9 +110,9 @@ class PdoTransmit(Contract):
         if not s.returned:
             return False
         if p["op"] == "t":
-            return And(len(sent) == 1, len(s.ev) == 1, S.eq(sent[0][1], p["cob"]), S.eq(sent[0][2], p["data0"]), sent[0][3] is False)
+            return And(len(sent) == 1, len(s.ev) == 1, S.eq(sent[0][1], p["cob"]), S.eq(sent[0][2], p["data0"]), S.is_false(sent[0][3]))
         if bool(And(p["enabled"], p["rtr"])):
-            return And(len(sent) == 1, len(s.ev) == 1, S.eq(sent[0][1], p["cob"]), S.is_bytes(sent[0][2], 0), sent[0][3] is True)
+            return And(len(sent) == 1, len(s.ev) == 1, S.eq(sent[0][1], p["cob"]), S.is_bytes(sent[0][2], 0), S.is_true(sent[0][3]))
         return len(s.ev) == 0
 
     ensures = {"frame-exact_or-nothing": lambda s: PdoTransmit.ok(s)}
